@@ -473,6 +473,8 @@ class SCRun:
                     self.rec("deadlineset", tid, target=s[1], val=s[2])
                     sc.deadline = float("inf") if s[2] == "inf" else self.loop.time() + s[2]
                     self.faults["deadline_move"] += 1
+                    self.poll()     # a deadline that is already due cancels the scope inside the setter: that instant is
+                    #                 this record, not the next one (which may be a shield toggle)
             elif k == "raise":
                 self.rec("raise", tid, eid=s[1])
                 self.faults["raise"] += 1
